@@ -29,6 +29,7 @@ type c30Case struct {
 	ClientAuth int
 	CA         bool
 	Ciphers    string // nil | tls12 | default
+	Insecure   bool   `json:"insecure,omitempty"` // InsecureSkipVerify / PreferServerCipherSuites set (must not weaken the listener)
 	Rotation   bool   `json:"rotation,omitempty"`
 }
 
@@ -160,6 +161,9 @@ func c30One(c *vCtx, p *c30PKI, cs c30Case) {
 	if cs.CA {
 		tc.CAFile = filepath.Join(p.dir, "ca.pem")
 	}
+	if cs.Insecure {
+		tc.InsecureSkipVerify, tc.PreferServerCipherSuites = true, true
+	}
 	switch cs.Ciphers {
 	case "tls12":
 		tc.CipherSuites = []uint16{tls.TLS_ECDHE_ECDSA_WITH_AES_128_GCM_SHA256, tls.TLS_ECDHE_ECDSA_WITH_AES_256_GCM_SHA384}
@@ -167,6 +171,9 @@ func c30One(c *vCtx, p *c30PKI, cs c30Case) {
 		tc.CipherSuites = DefaultTLSConfig().CipherSuites
 	}
 	cfgName := fmt.Sprintf("min=%s,max=%s,auth=%d,ca=%v,ciphers=%s", c30VersName(cs.Min), c30VersName(cs.Max), cs.ClientAuth, cs.CA, cs.Ciphers)
+	if cs.Insecure {
+		cfgName += ",insecure-skip-verify"
+	}
 	fs := recfs.New()
 	fs.NoLog = true
 	nfs, err := New(fs, ExportOptions{MaxWorkers: 2, TLS: tc})
@@ -254,7 +261,7 @@ func init() {
 	vRegister(&vCheck{
 		id: "C30", level: "exploration", flavour: "plain",
 		shards: func(string) int { return 10 },
-		rule: "complete product: MinVersion x MaxVersion in {0,1.0,1.1,1.2,1.3}^2 x ClientAuth (all 5 modes) x CA file {none, CA} x cipher list {nil (quick); + explicit TLS1.2 list, DefaultTLSConfig list (thorough)}; every configuration New/Listen accept is started on loopback and attacked by 16 clients: offering exactly one protocol version in {1.0,1.1,1.2,1.3} x client certificate {none, self-signed, CA-signed, signed by a foreign CA}; 'handshake completed' = a NULL RPC sent over the TLS connection is answered. Oracle: completed => negotiated >= TLS 1.2; RequireAndVerifyClientCert with a CA => only the CA-signed client completes (likewise VerifyIfGiven rejects bad certificates, RequireAny rejects no certificate). Rotation: certificate files replaced, GetExportOptions().TLS.ReloadCertificates() called as documented, a new handshake must present the new leaf. Certificates (ECDSA P-256) are generated at run time and removed.",
+		rule: "complete product: MinVersion x MaxVersion in {0,1.0,1.1,1.2,1.3}^2 x ClientAuth (all 5 modes) x CA file {none, CA} x {InsecureSkipVerify+PreferServerCipherSuites unset; set (quick: for the version ranges unset and 1.2..1.3; thorough: all)} x cipher list {nil (quick); + explicit TLS1.2 list, DefaultTLSConfig list (thorough)}; every configuration New/Listen accept is started on loopback and attacked by 16 clients: offering exactly one protocol version in {1.0,1.1,1.2,1.3} x client certificate {none, self-signed, CA-signed, signed by a foreign CA}; 'handshake completed' = a NULL RPC sent over the TLS connection is answered. Oracle: completed => negotiated >= TLS 1.2; RequireAndVerifyClientCert with a CA => only the CA-signed client completes (likewise VerifyIfGiven rejects bad certificates, RequireAny rejects no certificate). Rotation: certificate files replaced, GetExportOptions().TLS.ReloadCertificates() called as documented, a new handshake must present the new leaf. Certificates (ECDSA P-256) are generated at run time and removed.",
 		assumptions: []string{"the configuration and client space is enumerated completely; each handshake is one real execution of the Go TLS stack", "RequireAndVerifyClientCert without a CA file is not judged (no configured CA)"},
 		run: func(c *vCtx) {
 			p := c30NewPKI()
@@ -278,6 +285,12 @@ func init() {
 								c30One(c, p, cs)
 								if idx%37 == 0 {
 									c.sample(cs)
+								}
+								// the client-side knob InsecureSkipVerify (and the server cipher preference) set on
+								// the listener's configuration: quick for the version ranges {unset, 1.2..1.3}
+								if c.thorough() || (mn == 0 && mx == 0) || (mn == tls.VersionTLS12 && mx == tls.VersionTLS13) {
+									cs.Insecure = true
+									c30One(c, p, cs)
 								}
 							}
 						}
